@@ -1,0 +1,238 @@
+//! Stand-in for `mio_extras::timer::{Timer, Timeout}` (the five calls amiquip uses).
+//! In real-time mode it delegates to the real timer; in virtual mode a timeout becomes
+//! readable exactly when the virtual clock reaches its deadline.
+use super::clock::{self, Alarm};
+use mio::{Evented, Poll, PollOpt, Ready, Registration, SetReadiness, Token};
+use std::io;
+use std::sync::{Arc, Mutex, OnceLock, Weak};
+use std::time::Duration;
+
+#[derive(Clone, Debug)]
+pub enum Timeout {
+    Real(mio_extras::timer::Timeout),
+    Virtual(u64),
+}
+
+struct Shared {
+    // (deadline_ns, id), unsorted; small
+    pending: Mutex<Vec<(u64, u64)>>,
+    set_readiness: Mutex<Option<SetReadiness>>,
+    registration: Mutex<Option<Registration>>,
+}
+
+impl Alarm for Shared {
+    fn clock_advanced(&self, now_ns: u64) {
+        let due = self
+            .pending
+            .lock()
+            .unwrap_or_else(|e| e.into_inner())
+            .iter()
+            .any(|(d, _)| *d <= now_ns);
+        if due {
+            if let Some(sr) = &*self.set_readiness.lock().unwrap_or_else(|e| e.into_inner()) {
+                let _ = sr.set_readiness(Ready::readable());
+            }
+        }
+    }
+}
+
+fn registry() -> &'static Mutex<Vec<Weak<Shared>>> {
+    static R: OnceLock<Mutex<Vec<Weak<Shared>>>> = OnceLock::new();
+    R.get_or_init(|| Mutex::new(Vec::new()))
+}
+
+pub(crate) fn next_deadline_ns() -> Option<u64> {
+    let mut r = registry().lock().unwrap_or_else(|e| e.into_inner());
+    r.retain(|w| w.strong_count() > 0);
+    r.iter()
+        .filter_map(|w| w.upgrade())
+        .filter_map(|s| {
+            s.pending
+                .lock()
+                .unwrap_or_else(|e| e.into_inner())
+                .iter()
+                .map(|(d, _)| *d)
+                .min()
+        })
+        .min()
+}
+
+pub struct VirtualTimer<T> {
+    shared: Arc<Shared>,
+    values: Vec<(u64, T)>,
+    next_id: u64,
+}
+
+pub enum Timer<T> {
+    Real(mio_extras::timer::Timer<T>),
+    Virtual(VirtualTimer<T>),
+}
+
+impl<T> Default for Timer<T> {
+    fn default() -> Timer<T> {
+        if clock::is_virtual() {
+            let shared = Arc::new(Shared {
+                pending: Mutex::new(Vec::new()),
+                set_readiness: Mutex::new(None),
+                registration: Mutex::new(None),
+            });
+            registry()
+                .lock()
+                .unwrap_or_else(|e| e.into_inner())
+                .push(Arc::downgrade(&shared));
+            let weak: Weak<Shared> = Arc::downgrade(&shared);
+            clock::register_alarm(weak);
+            Timer::Virtual(VirtualTimer {
+                shared,
+                values: Vec::new(),
+                next_id: 1,
+            })
+        } else {
+            Timer::Real(mio_extras::timer::Timer::default())
+        }
+    }
+}
+
+impl<T> Timer<T> {
+    pub fn set_timeout(&mut self, delay_from_now: Duration, state: T) -> Timeout {
+        match self {
+            Timer::Real(t) => Timeout::Real(t.set_timeout(delay_from_now, state)),
+            Timer::Virtual(v) => {
+                let id = v.next_id;
+                v.next_id += 1;
+                let deadline = clock::now_ns().saturating_add(delay_from_now.as_nanos() as u64);
+                v.shared
+                    .pending
+                    .lock()
+                    .unwrap_or_else(|e| e.into_inner())
+                    .push((deadline, id));
+                v.values.push((id, state));
+                Timeout::Virtual(id)
+            }
+        }
+    }
+
+    pub fn cancel_timeout(&mut self, timeout: &Timeout) -> Option<T> {
+        match (self, timeout) {
+            (Timer::Real(t), Timeout::Real(to)) => t.cancel_timeout(to),
+            (Timer::Virtual(v), Timeout::Virtual(id)) => {
+                v.shared
+                    .pending
+                    .lock()
+                    .unwrap_or_else(|e| e.into_inner())
+                    .retain(|(_, i)| i != id);
+                let pos = v.values.iter().position(|(i, _)| i == id)?;
+                Some(v.values.remove(pos).1)
+            }
+            _ => None,
+        }
+    }
+
+    /// Next expired timeout (earliest deadline first), if any.
+    pub fn poll(&mut self) -> Option<T> {
+        match self {
+            Timer::Real(t) => t.poll(),
+            Timer::Virtual(v) => {
+                let now = clock::now_ns();
+                let mut pending = v.shared.pending.lock().unwrap_or_else(|e| e.into_inner());
+                let best = pending
+                    .iter()
+                    .enumerate()
+                    .filter(|(_, (d, _))| *d <= now)
+                    .min_by_key(|(_, (d, id))| (*d, *id))
+                    .map(|(idx, _)| idx);
+                match best {
+                    Some(idx) => {
+                        let (_, id) = pending.remove(idx);
+                        drop(pending);
+                        let pos = v.values.iter().position(|(i, _)| *i == id)?;
+                        Some(v.values.remove(pos).1)
+                    }
+                    None => {
+                        drop(pending);
+                        if let Some(sr) = &*v
+                            .shared
+                            .set_readiness
+                            .lock()
+                            .unwrap_or_else(|e| e.into_inner())
+                        {
+                            let _ = sr.set_readiness(Ready::empty());
+                        }
+                        None
+                    }
+                }
+            }
+        }
+    }
+}
+
+impl<T> Evented for Timer<T> {
+    fn register(
+        &self,
+        poll: &Poll,
+        token: Token,
+        interest: Ready,
+        opts: PollOpt,
+    ) -> io::Result<()> {
+        match self {
+            Timer::Real(t) => t.register(poll, token, interest, opts),
+            Timer::Virtual(v) => {
+                let mut sr = v
+                    .shared
+                    .set_readiness
+                    .lock()
+                    .unwrap_or_else(|e| e.into_inner());
+                if sr.is_some() {
+                    return Err(io::Error::new(
+                        io::ErrorKind::Other,
+                        "timer already registered",
+                    ));
+                }
+                let (registration, set_readiness) = Registration::new2();
+                poll.register(&registration, token, interest, opts)?;
+                *sr = Some(set_readiness);
+                *v.shared
+                    .registration
+                    .lock()
+                    .unwrap_or_else(|e| e.into_inner()) = Some(registration);
+                Ok(())
+            }
+        }
+    }
+
+    fn reregister(
+        &self,
+        poll: &Poll,
+        token: Token,
+        interest: Ready,
+        opts: PollOpt,
+    ) -> io::Result<()> {
+        match self {
+            Timer::Real(t) => t.reregister(poll, token, interest, opts),
+            Timer::Virtual(v) => match &*v
+                .shared
+                .registration
+                .lock()
+                .unwrap_or_else(|e| e.into_inner())
+            {
+                Some(r) => poll.reregister(r, token, interest, opts),
+                None => Err(io::Error::new(io::ErrorKind::Other, "not registered")),
+            },
+        }
+    }
+
+    fn deregister(&self, poll: &Poll) -> io::Result<()> {
+        match self {
+            Timer::Real(t) => t.deregister(poll),
+            Timer::Virtual(v) => match &*v
+                .shared
+                .registration
+                .lock()
+                .unwrap_or_else(|e| e.into_inner())
+            {
+                Some(r) => poll.deregister(r),
+                None => Err(io::Error::new(io::ErrorKind::Other, "not registered")),
+            },
+        }
+    }
+}
